@@ -139,11 +139,12 @@ def richardson_with_exp_estimation(coeffs, energies, stderr=None):
         float: Error estimation for extrapolated energy
     """
     n = len(coeffs)
-    Eh = np.array(energies)
-    c = np.array(coeffs)
-    ck = np.array(coeffs)
+    # Work on float copies: the recursion below assigns into these arrays (integer inputs would be truncated)
+    Eh = np.array(energies, dtype=float)
+    c = np.array(coeffs, dtype=float)
+    ck = np.array(coeffs, dtype=float)
     if stderr is not None:
-        stderr = np.array(stderr)
+        stderr = np.array(stderr, dtype=float)
     p, p_old = 1, 0
 
     # Define a helper function for exponent optimization
